@@ -172,13 +172,25 @@ def specClass (major minor : Nat) : VClass :=
   | 0x16 => if minor = 0x3C then .published else .unknown
   | _ => .unknown
 
+/-- Director's built-in palettes by number (format notes); a stored palette field `v ≤ 0` denotes built-in number `v - 1`,
+    a positive one a cast member -/
+def builtinPalettes : List (Int × String) :=
+  [(-1, "systemMac"), (-2, "rainbow"), (-3, "grayscale"), (-4, "pastels"), (-5, "vivid"), (-6, "ntsc"), (-7, "metallic"),
+   (-8, "web216"), (-101, "systemWinDir4"), (-102, "systemWin")]
+
+def specPaletteName (stored : Int) : String :=
+  let v := if stored ≤ 0 then stored - 1 else stored
+  match lookupName builtinPalettes v with
+  | some s => s
+  | none => toString v
+
 /-- what the settings chunk means -/
 def VwcfSpec.meaning (s : VwcfSpec) : Vwcf :=
   let cls := specClass (s.word / 256) (s.word % 256)
   ⟨cls, s.top, s.left, s.bottom, s.right, s.castStart, s.castEnd, s.rate, s.stageColor.toNat,
    match cls with
-   | .dir4 => paletteName s.pal46
-   | .dir5 => paletteName s.pal4e
+   | .dir4 => specPaletteName s.pal46
+   | .dir5 => specPaletteName s.pal4e
    | _ => "unknonw"⟩
 
 end Drx.IdxSpec
